@@ -214,9 +214,14 @@ def rule_dof_guard(F, ev, R, config, rule="R-DOF-GUARD", checked=True):
                                 okk = True
                         # … or of a value that is present exactly when N > M+P (`(n > total).then(..).ok_or(Underdetermined)`)
                         only_if = returned_only_if(ev, xb, xenv, es["place"]["l"]) if not es["place"]["proj"] else None
+                        def same_sum(x, y):
+                            if x == y:
+                                return True
+                            return x[0] == y[0] == "bin" and x[1] == y[1] == "Add" and sorted(map(repr, x[2:4])) == sorted(map(repr, y[2:4]))
                         for t_, tr in (only_if or []):
                             for t2, tr2 in expand_bool(t_, tr):
-                                if canon_rel(t2, tr2) in (("Le", n, tot), ("Lt", n, tot)):
+                                r_ = canon_rel(t2, tr2)
+                                if r_ and r_[0] in ("Le", "Lt") and same_sum(r_[1], n) and same_sum(r_[2], tot):
                                     okk = True
                     R.add(rule, config, xb.key, "underdetermined-iff", okk,
                           "" if okk else "Err(Underdetermined) can be produced without N ≤ M+P", es.get("span"))
